@@ -59,6 +59,8 @@ fn big_payload(c: (u8, u32, u32)) -> &'static Vec<u8> {
 	&all[BIG_TILES.iter().position(|t| *t == c).unwrap()]
 }
 
+/// payload classes at the small end: 0 bytes, 1 byte, "looks compressed" (directory sources, which can hold a 0-byte file)
+const TINY: [(u8, u32, u32); 4] = [(1, 0, 0), (1, 1, 0), (1, 0, 1), (1, 1, 1)];
 const M31: u32 = 0x7fff_ffff; // 2^31 - 1
 const M30: u32 = 0x3fff_ffff;
 const Z31_LO: [(u8, u32, u32); 5] = [(30, 0, 0), (30, 1, 1), (31, 0, 0), (31, 1, 0), (31, 3, 2)];
@@ -101,6 +103,8 @@ struct SourceDef {
 	/// tile set: "std" = TILES, "big" = BIG_TILES (large incompressible payloads), "z31lo"/"z31hi" = tiles at zoom 30/31 at
 	/// the origin / the far corner of the level, "fault_*" = TILES, partly or wholly made unreadable after the server started
 	set: &'static str,
+	/// written by the independent encoders of `indep_formats.rs` with non-canonical layout choices instead of the repo's writer
+	indep: bool,
 }
 impl SourceDef {
 	fn mislabelled(&self) -> bool {
@@ -115,6 +119,7 @@ impl SourceDef {
 			"big" => &BIG_TILES,
 			"z31lo" => &Z31_LO,
 			"z31hi" => &Z31_HI,
+			"tiny" => &TINY,
 			_ => &TILES,
 		}
 	}
@@ -127,6 +132,14 @@ impl SourceDef {
 		}
 	}
 	fn payload(&self, c: (u8, u32, u32)) -> Vec<u8> {
+		if self.set == "tiny" {
+			return match TINY.iter().position(|t| *t == c).unwrap() {
+				0 => vec![],                          // a zero-length tile
+				1 => vec![0x42],                      // one byte
+				2 => crate::c04::gz_enc(b"x", 6),     // a payload that is itself a gzip stream
+				_ => vec![0x1f, 0x8b, 0x08],          // the gzip magic and nothing else
+			};
+		}
 		if self.big() {
 			big_payload(c).clone()
 		} else {
@@ -184,13 +197,13 @@ fn source_defs(dir: &PathBuf, thorough: bool) -> Vec<SourceDef> {
 				format!("{}_{}_{}_really_{}", &container[..1], cname(comp), fmt, cname(actual))
 			};
 			let path = if container == "directory" { dir.join(format!("{id}_dir")) } else { dir.join(format!("{id}.{container}")) };
-			SourceDef { path, id, container, comp, actual, fmt, set: "std" }
+			SourceDef { path, id, container, comp, actual, fmt, set: "std", indep: false }
 		})
 		.chain(
 			// large tiles: one source per stored compression (+ one pmtiles), vector format so that nothing is "incompressible by MIME"
 			[("versatiles", Uncompressed), ("versatiles", Gzip), ("versatiles", Brotli), ("pmtiles", Gzip)].into_iter().map(|(container, comp)| {
 				let id = format!("big_{}_{}", &container[..1], cname(comp));
-				SourceDef { path: dir.join(format!("{id}.{container}")), id, container, comp, actual: comp, fmt: "pbf", set: "big" }
+				SourceDef { path: dir.join(format!("{id}.{container}")), id, container, comp, actual: comp, fmt: "pbf", set: "big", indep: false }
 			}),
 		)
 		.chain(
@@ -198,7 +211,7 @@ fn source_defs(dir: &PathBuf, thorough: bool) -> Vec<SourceDef> {
 			[("versatiles", Gzip, "z31lo"), ("versatiles", Uncompressed, "z31hi"), ("pmtiles", Brotli, "z31hi"), ("directory", Gzip, "z31lo"), ("directory", Uncompressed, "z31hi")].into_iter().map(|(container, comp, set)| {
 				let id = format!("{set}_{}_{}", &container[..1], cname(comp));
 				let path = if container == "directory" { dir.join(format!("{id}_dir")) } else { dir.join(format!("{id}.{container}")) };
-				SourceDef { path, id, container, comp, actual: comp, fmt: "pbf", set }
+				SourceDef { path, id, container, comp, actual: comp, fmt: "pbf", set, indep: false }
 			}),
 		)
 		.chain(
@@ -206,10 +219,58 @@ fn source_defs(dir: &PathBuf, thorough: bool) -> Vec<SourceDef> {
 			[("directory", Gzip, "fault_dir"), ("tar", Gzip, "fault_tar"), ("versatiles", Gzip, "fault_versatiles")].into_iter().map(|(container, comp, set)| {
 				let id = set.to_string();
 				let path = if container == "directory" { dir.join(format!("{id}_dir")) } else { dir.join(format!("{id}.{container}")) };
-				SourceDef { path, id, container, comp, actual: comp, fmt: "pbf", set }
+				SourceDef { path, id, container, comp, actual: comp, fmt: "pbf", set, indep: false }
+			}),
+		)
+		.chain(
+			[Uncompressed, Gzip, Brotli].into_iter().map(|comp| {
+				let id = format!("tiny_d_{}", cname(comp));
+				SourceDef { path: dir.join(format!("{id}_dir")), id, container: "directory", comp, actual: comp, fmt: "pbf", set: "tiny", indep: false }
+			}),
+		)
+		.chain(
+			// containers NOT written by the repo's writers: shuffled blocks / index, reverse blob order, shared offsets
+			// (versatiles); leaf directories, run-length entries, unusual section order (pmtiles)
+			[("versatiles", Gzip, "pbf"), ("versatiles", Uncompressed, "png"), ("pmtiles", Gzip, "pbf"), ("pmtiles", Brotli, "pbf")].into_iter().map(|(container, comp, fmt)| {
+				let id = format!("indep_{}_{}_{}", &container[..1], cname(comp), fmt);
+				SourceDef { path: dir.join(format!("{id}.{container}")), id, container, comp, actual: comp, fmt, set: "std", indep: true }
 			}),
 		)
 		.collect()
+}
+
+fn write_indep(d: &SourceDef, tiles: &[((u8, u32, u32), Vec<u8>)]) {
+	use crate::indep_formats as f;
+	let map: f::TileMap = tiles.iter().cloned().collect();
+	let mut rng = Rng::new(0x1de9 ^ d.id.len() as u64);
+	let comp = match d.comp {
+		TileCompression::Uncompressed => f::Comp::None,
+		TileCompression::Gzip => f::Comp::Gzip,
+		TileCompression::Brotli => f::Comp::Brotli,
+	};
+	let fmt = f::Fmt::from_name(d.fmt).unwrap();
+	let bytes = if d.container == "versatiles" {
+		let mut ch = f::VtChoices::plain(fmt, comp);
+		ch.meta = Some(b"{\"tilejson\":\"3.0.0\",\"name\":\"indep\"}".to_vec());
+		ch.range_mode = 1;
+		ch.shuffle_blocks = true;
+		ch.shuffle_index = true;
+		ch.blob_order = 2;
+		ch.share = true;
+		ch.max_gap = 7;
+		f::encode_versatiles(&map, &ch, &mut rng).bytes
+	} else {
+		let mut ch = f::PmChoices::plain(fmt.pm_type().unwrap(), comp.pm_code());
+		ch.meta = b"{\"name\":\"indep\"}".to_vec();
+		ch.levels = 2;
+		ch.fan_leaf = 3;
+		ch.merge_runs = true;
+		ch.share = true;
+		ch.section_order = [2, 0, 1];
+		ch.max_gap = 5;
+		f::encode_pmtiles(&map, &ch, &mut rng).bytes
+	};
+	std::fs::write(&d.path, bytes).unwrap();
 }
 
 fn write_sources(defs: &[SourceDef], rt: &tokio::runtime::Runtime) {
@@ -224,6 +285,10 @@ fn write_sources(defs: &[SourceDef], rt: &tokio::runtime::Runtime) {
 				(*c, enc)
 			})
 			.collect();
+		if d.indep {
+			write_indep(d, &tiles);
+			continue;
+		}
 		let tj = TileJSON::try_from("{\"tilejson\":\"3.0.0\",\"name\":\"c05\"}").unwrap();
 		let mut reader = MemReader::new(parse_format(d.fmt), d.comp, tj, &tiles);
 		if d.container == "directory" {
@@ -282,6 +347,11 @@ fn free_port() -> u16 {
 }
 
 fn start_server(bin: &str, defs: &[SourceDef], fast: bool, flip: bool, swap: bool, ovr: Option<TileCompression>, logdir: &PathBuf) -> Server {
+	start_server_x(bin, defs, fast, flip, swap, ovr, &[], logdir)
+}
+
+/// `extra`: further command line arguments (`-s …`, `--disable-api`, additional `file[id]` sources)
+fn start_server_x(bin: &str, defs: &[SourceDef], fast: bool, flip: bool, swap: bool, ovr: Option<TileCompression>, extra: &[String], logdir: &PathBuf) -> Server {
 	for attempt in 0..5 {
 		let port = free_port();
 		let mut cmd = Command::new(bin);
@@ -304,6 +374,9 @@ fn start_server(bin: &str, defs: &[SourceDef], fast: bool, flip: bool, swap: boo
 		}
 		for d in defs {
 			cmd.arg(format!("{}[{}]", d.path.to_str().unwrap(), d.id));
+		}
+		for a in extra {
+			cmd.arg(a);
 		}
 		let log = std::fs::File::create(logdir.join(format!("server_{port}.log"))).unwrap();
 		cmd.stdin(Stdio::null()).stdout(Stdio::null()).stderr(Stdio::from(log));
@@ -582,8 +655,12 @@ fn hex_or_tilde(s: &Option<String>) -> String {
 }
 
 fn do_request(out: &mut Out, cx: &Ctx, srv: &Server, d: &SourceDef, rest: &str, accept: &Option<String>, expect: Option<(Expect, Vec<String>)>, class: &str) {
+	// the server's assumption about the stored bytes is wrong: sources that lie about their compression, served without
+	// the matching override (only on the "corrupt" instances)
+	let corrupt = srv.ovr.unwrap_or(d.comp) != d.actual;
 	let line = format!(
-		"C05 req2 {} {} {} {} {} {} {} {} {}",
+		"C05 {} {} {} {} {} {} {} {} {} {}{}",
+		if corrupt { "req3" } else { "req2" },
 		srv.fast as u8,
 		srv.flip as u8,
 		srv.swap as u8,
@@ -592,7 +669,8 @@ fn do_request(out: &mut Out, cx: &Ctx, srv: &Server, d: &SourceDef, rest: &str, 
 		d.fmt,
 		coords_str(d.tiles()),
 		hex_or_tilde(accept),
-		hex(rest.as_bytes())
+		hex(rest.as_bytes()),
+		if corrupt { " 1" } else { "" }
 	);
 	let _ = cx;
 	let target = format!("/tiles/{}/{}", d.id, rest);
@@ -600,7 +678,6 @@ fn do_request(out: &mut Out, cx: &Ctx, srv: &Server, d: &SourceDef, rest: &str, 
 	let mode = srv.mode();
 	let mode = mode.as_str();
 	// what the server has to assume about the stored bytes must be what they really are, else the set-up is wrong
-	debug_assert_eq!(srv.ovr.unwrap_or(d.comp), d.actual);
 	let sig = |kind: &str| json!({"kind": kind, "class": class, "container": d.container, "mode": mode, "mislabelled": d.mislabelled()});
 	let detail = |extra: serde_json::Value| json!({"case": line, "request": target, "accept_encoding": accept, "source": d.id, "mode": mode, "info": extra});
 	let ans = match &resp {
@@ -612,8 +689,15 @@ fn do_request(out: &mut Out, cx: &Ctx, srv: &Server, d: &SourceDef, rest: &str, 
 	match &resp {
 		None => out.oracle(false, "C05 no complete HTTP response (connection dropped)", sig("dropped"), detail(json!(null))),
 		Some(r) => {
-			out.oracle(matches!(r.status, 200 | 400 | 404), "C05 unexpected status", sig("status_other"), detail(json!({"status": r.status})));
-			if let Some((exp, listed)) = &expect {
+			out.oracle(matches!(r.status, 200 | 400 | 404) || (corrupt && r.status == 500), "C05 unexpected status", sig("status_other"), detail(json!({"status": r.status})));
+			if corrupt {
+				// undecodable stored data: "fail loudly (500) or deliver it as stored", never anything else
+				if r.status == 200 {
+					let stored_ok = d.tiles().iter().any(|c| indep_enc(d.actual, &d.payload(*c)) == r.body);
+					let labelled = r.header("content-encoding").map(|s| s.to_string()) == match d.comp { TileCompression::Uncompressed => None, TileCompression::Gzip => Some("gzip".to_string()), TileCompression::Brotli => Some("br".to_string()) };
+					out.oracle(stored_ok && labelled, "C05 undecodable stored tile answered with something else than the stored bytes", sig("corrupt_body"), detail(json!({"status": r.status})));
+				}
+			} else if let Some((exp, listed)) = &expect {
 				match exp {
 					Expect::Coord(z, x, y) => {
 						// which stored tile is served at (z,x,y)?  The server presents the container's tiles transformed:
@@ -849,6 +933,334 @@ fn replay_expect(rest: &str, accept: &Option<String>) -> Option<(Expect, Vec<Str
 	Some((Expect::Coord(z, x, y), listed))
 }
 
+// ---------------------------------------------------------------------------------------------
+// every route of the server under every header variant (class 7), option interplay (class 4), repeated requests (class 5),
+// precompressed vs on-the-fly (class 10)
+// ---------------------------------------------------------------------------------------------
+struct StaticFile {
+	name: &'static str,
+	content: Vec<u8>,
+	/// which variants exist on disk / in the tar: plain, .gz, .br
+	un: bool,
+	gz: bool,
+	br: bool,
+	mime: &'static str,
+}
+
+fn static_files() -> Vec<StaticFile> {
+	let text = |tag: &str| -> Vec<u8> { format!("static file {tag}: lorem ipsum dolor sit amet, consetetur sadipscing elitr, sed diam nonumy eirmod tempor {tag} {tag} {tag}\n").repeat(4).into_bytes() };
+	vec![
+		StaticFile { name: "a.txt", content: text("a"), un: true, gz: false, br: false, mime: "text/plain; charset=utf-8" },
+		StaticFile { name: "b.json", content: b"{\"k\":[1,2,3],\"text\":\"aaaaaaaaaaaaaaaaaaaaaaaaaaaaaaaaaaaaaaaaaaaaaaaa\"}".to_vec(), un: true, gz: false, br: false, mime: "application/json" },
+		StaticFile { name: "c.png", content: MOCK_BYTES_PNG.to_vec(), un: true, gz: false, br: false, mime: "image/png" },
+		StaticFile { name: "d.bin", content: (0..500u32).map(|i| (i * 31 % 256) as u8).collect(), un: true, gz: false, br: false, mime: "application/octet-stream" },
+		StaticFile { name: "e.txt", content: text("e"), un: false, gz: false, br: true, mime: "text/plain; charset=utf-8" },
+		StaticFile { name: "f.txt", content: text("f"), un: false, gz: true, br: false, mime: "text/plain; charset=utf-8" },
+		StaticFile { name: "g.txt", content: text("g"), un: true, gz: true, br: true, mime: "text/plain; charset=utf-8" },
+		StaticFile { name: "h.css", content: text("h"), un: false, gz: true, br: true, mime: "text/css; charset=utf-8" },
+		StaticFile { name: "i.png", content: MOCK_BYTES_PNG.to_vec(), un: false, gz: true, br: false, mime: "image/png" },
+		StaticFile { name: "sub/index.html", content: b"<html><body>sub index sub index sub index sub index sub index</body></html>".to_vec(), un: true, gz: false, br: true, mime: "text/html; charset=utf-8" },
+		StaticFile { name: "empty.txt", content: vec![], un: true, gz: false, br: false, mime: "text/plain; charset=utf-8" },
+	]
+}
+
+fn write_static(dir: &PathBuf) -> (PathBuf, PathBuf, PathBuf) {
+	let folder = dir.join("st_folder");
+	let folder2 = dir.join("st_folder2");
+	let tarp = dir.join("st.tar");
+	std::fs::create_dir_all(folder.join("sub")).unwrap();
+	std::fs::create_dir_all(&folder2).unwrap();
+	let mut tb = tar::Builder::new(std::fs::File::create(&tarp).unwrap());
+	let mut add = |name: String, data: &[u8]| {
+		std::fs::write(folder.join(&name), data).unwrap();
+		let mut h = tar::Header::new_gnu();
+		h.set_size(data.len() as u64);
+		h.set_mode(0o644);
+		tb.append_data(&mut h, &name, data).unwrap();
+	};
+	for f in static_files() {
+		if f.un {
+			add(f.name.to_string(), &f.content);
+		}
+		if f.gz {
+			add(format!("{}.gz", f.name), &crate::c04::gz_enc(&f.content, 6));
+		}
+		if f.br {
+			add(format!("{}.br", f.name), &crate::c04::br_enc(&f.content, 5, 22));
+		}
+	}
+	tb.finish().unwrap();
+	// second folder: shadows a.txt when it comes first, supplies z.txt
+	std::fs::write(folder2.join("a.txt"), b"a.txt of the SECOND folder").unwrap();
+	std::fs::write(folder2.join("z.txt"), b"z.txt exists only in the second folder").unwrap();
+	(folder, folder2, tarp)
+}
+
+/// header variants: (value(s) sent, tokens the client literally listed, model-expressible?)
+fn header_variants() -> Vec<(Option<String>, Vec<String>)> {
+	let v = |s: &str| Some(s.to_string());
+	let l = |t: &[&str]| t.iter().map(|x| x.to_string()).collect::<Vec<_>>();
+	vec![
+		(None, vec![]),
+		(v(""), vec![]),
+		(v("*"), l(&["*"])),
+		(v("gzip"), l(&["gzip"])),
+		(v("br"), l(&["br"])),
+		(v("gzip, br"), l(&["gzip", "br"])),
+		(v("br;q=0.1, gzip;q=0.9"), l(&["br", "gzip"])),
+		(v("GZIP"), l(&["gzip"])),
+		(v("Br, Gzip"), l(&["br", "gzip"])),
+		(v("gzip;q=0"), l(&["gzip"])), // weight 0 is outside the property's quantifier; the token IS listed
+		(v("br;q=0, gzip"), l(&["br", "gzip"])),
+		(v("identity"), l(&["identity"])),
+		(v("identity;q=0"), l(&["identity"])),
+		(v("deflate, zstd"), l(&["deflate", "zstd"])),
+		(v("x-gzip"), l(&["x-gzip", "gzip"])),   // out of alphabet: the substring rule answers gzip (alias in RFC 9110)
+		(v("brotli"), l(&["brotli", "br"])),     // out of alphabet: the substring rule answers br
+		(v("gzip,br,deflate,identity,zstd,*"), l(&["gzip", "br", "deflate", "identity", "zstd", "*"])),
+		(v("identity\r\nAccept-Encoding: br"), l(&["identity", "br"])), // two header lines; only the first is looked at
+	]
+}
+
+/// one request, twice; judged against expected content; returns the decoded body of the first response
+#[allow(clippy::too_many_arguments)]
+fn route_request(out: &mut Out, port: u16, mode: &str, route: &str, target: &str, acc: &Option<String>, listed: &[String], expect: Option<(&[u8], &str)>, model_line: Option<String>) -> Option<Vec<u8>> {
+	let r1 = http_get(port, target, acc.as_deref());
+	let r2 = http_get(port, target, acc.as_deref());
+	let sig = |kind: &str| json!({"kind": kind, "route": route, "mode": mode});
+	let detail = |extra: serde_json::Value| json!({"case": format!("C05 route {} {} {}", mode, hex(target.as_bytes()), hex_or_tilde(acc)), "request": target, "accept_encoding": acc, "info": extra});
+	out.eval(&format!("route {mode} {target} {acc:?}"), true);
+	out.count(&format!("route_{route}"));
+	let ans = match &r1 {
+		None => "dropped".to_string(),
+		Some(r) if r.status == 200 => format!("200 ct={} ce={}", r.header("content-type").unwrap_or("-"), r.header("content-encoding").unwrap_or("-")),
+		Some(r) => format!("{}", r.status),
+	};
+	if let Some(line) = model_line {
+		out.case(&line, &ans, true);
+	}
+	let (Some(a), Some(b)) = (&r1, &r2) else {
+		out.oracle(false, "C05 route: no complete HTTP response", sig("route_dropped"), detail(json!(null)));
+		return None;
+	};
+	// class 5: the second identical request gets the identical answer
+	let same = a.status == b.status && a.body == b.body && a.header("content-encoding") == b.header("content-encoding") && a.header("content-type") == b.header("content-type");
+	out.oracle(same, "C05 route: repeated request answered differently", sig("route_repeat"), detail(json!({"first": a.status, "second": b.status})));
+	let ce = a.header("content-encoding").map(|s| s.to_ascii_lowercase());
+	out.oracle(a.header_count("content-encoding") <= 1 && ce.as_ref().is_none_or(|t| listed.iter().any(|l| l == t)), "C05 route: content-encoding not listed by the client", sig("route_encoding_not_listed"), detail(json!({"content_encoding": ce, "listed": listed})));
+	let dec = match ce.as_deref() {
+		None => Some(a.body.clone()),
+		Some("gzip") => gz_dec(&a.body),
+		Some("br") => br_dec(&a.body),
+		Some(_) => None,
+	};
+	match expect {
+		Some((content, mime)) => {
+			out.oracle(a.status == 200, "C05 route: existing resource not served with 200", sig("route_status"), detail(json!({"status": a.status})));
+			if a.status == 200 {
+				out.oracle(dec.as_deref() == Some(content), "C05 route: body is not the stored content", sig("route_body"), detail(json!({"content_encoding": ce, "body_len": a.body.len()})));
+				out.oracle(a.header("content-type") == Some(mime), "C05 route: content-type", sig("route_content_type"), detail(json!({"got": a.header("content-type"), "want": mime})));
+			}
+		}
+		None => out.oracle(a.status == 404, "C05 route: unknown resource not answered with 404", sig("route_status_404"), detail(json!({"status": a.status}))),
+	}
+	dec
+}
+
+fn routes_section(out: &mut Out, args: &Args, bin: &str, dir: &PathBuf, defs: &[SourceDef]) {
+	let (folder, folder2, tarp) = write_static(dir);
+	let files = static_files();
+	let pick = |id: &str| defs.iter().find(|d| d.id == id).unwrap().clone();
+	let tile_defs = vec![pick("v_gzip_pbf"), pick("p_raw_png")];
+	let vg = pick("v_gzip_pbf");
+	// the same container mounted twice, and ids where one is a prefix of the other
+	let extra_src = vec![format!("{}[dupA]", vg.path.to_str().unwrap()), format!("{}[dupB]", vg.path.to_str().unwrap()), format!("{}[a]", vg.path.to_str().unwrap()), format!("{}[ab]", vg.path.to_str().unwrap())];
+	let s = |p: &PathBuf| p.to_str().unwrap().to_string();
+	struct Inst {
+		srv: Server,
+		name: &'static str,
+		/// static sources in order: (kind, url prefix, which content set: 1 = main files, 2 = second folder)
+		statics: Vec<(&'static str, &'static str, u8)>,
+		api: bool,
+	}
+	let mut insts = vec![];
+	{
+		let mut extra = extra_src.clone();
+		extra.extend(["-s".to_string(), s(&folder), "-s".to_string(), s(&folder2)]);
+		insts.push(Inst { srv: start_server_x(bin, &tile_defs, false, false, false, None, &extra, dir), name: "best:folder,folder2", statics: vec![("folder", "/", 1), ("folder", "/", 2)], api: true });
+	}
+	{
+		let extra = vec!["--disable-api".to_string(), "-s".to_string(), format!("[/assets]{}", s(&tarp)), "-s".to_string(), s(&folder2)];
+		insts.push(Inst { srv: start_server_x(bin, &tile_defs, true, false, false, None, &extra, dir), name: "fast,no-api:[/assets]tar,folder2", statics: vec![("tar", "/assets/", 1), ("folder", "/", 2)], api: false });
+	}
+	{
+		let extra = vec!["-s".to_string(), s(&folder2), "-s".to_string(), s(&tarp)];
+		insts.push(Inst { srv: start_server_x(bin, &tile_defs, false, false, false, None, &extra, dir), name: "best:folder2,tar", statics: vec![("folder", "/", 2), ("tar", "/", 1)], api: true });
+	}
+	if args.thorough() {
+		let extra = vec!["-s".to_string(), format!("[/x/y]{}", s(&folder)), "-s".to_string(), s(&tarp)];
+		insts.push(Inst { srv: start_server_x(bin, &tile_defs, true, false, false, None, &extra, dir), name: "fast:[/x/y]folder,tar", statics: vec![("folder", "/x/y/", 1), ("tar", "/", 1)], api: true });
+	}
+	let headers = header_variants();
+	let second: Vec<(&str, Vec<u8>, &str)> = vec![("a.txt", b"a.txt of the SECOND folder".to_vec(), "text/plain; charset=utf-8"), ("z.txt", b"z.txt exists only in the second folder".to_vec(), "text/plain; charset=utf-8")];
+	let mut tilejson_seen: BTreeMap<String, Vec<u8>> = BTreeMap::new();
+	for inst in &insts {
+		let port = inst.srv.port;
+		let mode = inst.name;
+		for (hi, (acc, listed)) in headers.iter().enumerate() {
+			let two_lines = acc.as_deref().is_some_and(|a| a.contains('\n'));
+			// --- static files: what the FIRST static source that knows the path holds
+			let mut paths: Vec<String> = vec![];
+			for (_, prefix, _) in &inst.statics {
+				for f in &files {
+					paths.push(format!("{prefix}{}", f.name));
+				}
+				for n in ["a.txt", "z.txt", "nope.txt", "sub/", "sub", ""] {
+					paths.push(format!("{prefix}{n}"));
+				}
+			}
+			paths.sort();
+			paths.dedup();
+			for path in paths {
+				if !args.thorough() && hi % 3 != 0 && !(path.ends_with("g.txt") || path.ends_with("e.txt") || path.ends_with("i.png") || path.ends_with("h.css")) {
+					continue; // quick tier: every third header for the plain files, all headers for the precompressed ones
+				}
+				// expected: first source (in order) that has the path
+				let mut expect: Option<(Vec<u8>, &str, &str, [bool; 3])> = None;
+				for (kind, prefix, set) in &inst.statics {
+					let Some(rel) = path.strip_prefix(prefix) else { continue };
+					let rel_idx = if rel.is_empty() || rel.ends_with('/') { format!("{rel}index.html") } else { rel.to_string() };
+					if *set == 1 {
+						// the tar source also answers `sub` (alias of sub/index.html); the folder source resolves a directory to index.html
+						let hit = files.iter().find(|f| f.name == rel_idx || (format!("{rel}/index.html") == f.name));
+						if let Some(f) = hit {
+							expect = Some((f.content.clone(), f.mime, kind, [f.un, f.gz, f.br]));
+							break;
+						}
+					} else if let Some((_, c, m)) = second.iter().find(|(n, _, _)| *n == rel_idx) {
+						expect = Some((c.clone(), m, kind, [true, false, false]));
+						break;
+					}
+				}
+				let model_line = match (&expect, two_lines) {
+					(Some((_, mime, kind, bits)), false) => Some(format!("C05 static {} {} {}{}{} {} {}", inst.srv.fast as u8, kind, bits[0] as u8, bits[1] as u8, bits[2] as u8, hex(mime.as_bytes()), hex_or_tilde(acc))),
+					_ => None,
+				};
+				let e = expect.as_ref().map(|(c, m, _, _)| (c.as_slice(), *m));
+				route_request(out, port, mode, "static", &path, acc, listed, e, model_line);
+			}
+			// --- service routes
+			route_request(out, port, mode, "status", "/status", acc, listed, Some((b"ready!", "text/plain; charset=utf-8")), None);
+			if inst.api {
+				let ids: Vec<String> = inst.srv.defs.iter().map(|d| format!("\"{}\"", d.id)).chain(["dupA", "dupB", "a", "ab"].iter().filter(|_| mode.starts_with("best:folder,")).map(|x| format!("\"{x}\""))).collect();
+				let body = format!("[{}]", ids.join(","));
+				route_request(out, port, mode, "api_index", "/tiles/index.json", acc, listed, Some((body.as_bytes(), "application/json")), None);
+			} else {
+				route_request(out, port, mode, "api_index_disabled", "/tiles/index.json", acc, listed, None, None);
+			}
+			// --- tilejson / meta routes of a tile source: same document whatever the header and the mode
+			for d in &inst.srv.defs {
+				for name in ["tiles.json", "meta.json"] {
+					let target = format!("/tiles/{}/{name}", d.id);
+					let r = http_get(port, &target, acc.as_deref());
+					out.eval(&format!("route {mode} {target} {acc:?}"), true);
+					out.count("route_tilejson");
+					let sig = json!({"kind":"route_tilejson","mode":mode});
+					match r {
+						None => out.oracle(false, "C05 route: no complete HTTP response", sig, json!({"case": format!("C05 route {mode} {}", hex(target.as_bytes())), "request": target})),
+						Some(r) => {
+							let ce = r.header("content-encoding").map(|s| s.to_ascii_lowercase());
+							let dec = match ce.as_deref() {
+								None => Some(r.body.clone()),
+								Some("gzip") => gz_dec(&r.body),
+								Some("br") => br_dec(&r.body),
+								_ => None,
+							};
+							let listed_ok = ce.as_ref().is_none_or(|t| listed.iter().any(|l| l == t));
+							let first = tilejson_seen.entry(d.id.clone()).or_insert_with(|| dec.clone().unwrap_or_default()).clone();
+							let ok = r.status == 200 && r.header("content-type") == Some("application/json") && listed_ok && dec.as_ref() == Some(&first) && serde_json::from_slice::<serde_json::Value>(&first).is_ok();
+							out.oracle(ok, "C05 route: tilejson document", sig, json!({"case": format!("C05 route {mode} {} {}", hex(target.as_bytes()), hex_or_tilde(acc)), "request": target, "accept_encoding": acc, "status": r.status, "content_encoding": ce}));
+						}
+					}
+				}
+			}
+			// --- the same container under several ids (also ids that are prefixes of each other): identical tiles
+			if mode.starts_with("best:folder,") {
+				for id in ["dupA", "dupB", "a", "ab", "v_gzip_pbf"] {
+					let target = format!("/tiles/{id}/3/7/0");
+					let p = payload("pbf", (3, 7, 0));
+					route_request(out, port, mode, "same_source_twice", &target, acc, listed, Some((&p, "application/x-protobuf")), None);
+				}
+			}
+		}
+	}
+	// colliding ids: the server must refuse to start rather than shadow one source by the other
+	{
+		let mut cmd = Command::new(bin);
+		cmd.arg("serve").arg("-i").arg("127.0.0.1").arg("-p").arg(free_port().to_string()).arg("--auto-shutdown").arg("1500");
+		cmd.arg(format!("{}[same]", vg.path.to_str().unwrap())).arg(format!("{}[same]", pick("p_raw_png").path.to_str().unwrap()));
+		cmd.stdin(Stdio::null()).stdout(Stdio::null()).stderr(Stdio::null());
+		let st = cmd.status();
+		let refused = st.as_ref().map(|s| !s.success()).unwrap_or(false);
+		out.oracle(refused, "C05 two tile sources with the same id are accepted", json!({"kind":"colliding_ids"}), json!({"case": "C05 collide", "exit": st.ok().and_then(|s| s.code())}));
+		out.eval("collide same id", true);
+	}
+	for inst in insts.iter_mut() {
+		let alive = matches!(inst.srv.child.try_wait(), Ok(None));
+		out.oracle(alive, "C05 server process died", json!({"kind":"server_died","mode":inst.name}), json!({"case": "-"}));
+	}
+	out.notes.push(format!("route instances: {}", insts.iter().map(|i| i.name).collect::<Vec<_>>().join(" | ")));
+}
+
+/// class 6: many clients at once on one source (per-source async mutex) and across sources
+fn concurrent_section(out: &mut Out, srv: &Server) {
+	let targets: Vec<(String, Vec<u8>)> = srv
+		.defs
+		.iter()
+		.filter(|d| d.fmt == "pbf" && d.set == "std")
+		.take(6)
+		.flat_map(|d| TILES.iter().map(|c| (format!("/tiles/{}/{}/{}/{}", d.id, c.0, c.1, c.2), payload("pbf", *c))).collect::<Vec<_>>())
+		.collect();
+	let port = srv.port;
+	let results: Vec<(usize, usize)> = std::thread::scope(|sc| {
+		let hs: Vec<_> = (0..8)
+			.map(|t| {
+				let targets = &targets;
+				sc.spawn(move || {
+					let (mut ok, mut bad) = (0usize, 0usize);
+					for i in 0..40 {
+						let (target, want) = &targets[(t * 7 + i * 3) % targets.len()];
+						let acc = ["gzip", "br", "identity"][(t + i) % 3];
+						let good = http_get(port, target, Some(acc)).is_some_and(|r| {
+							let dec = match r.header("content-encoding") {
+								None => Some(r.body.clone()),
+								Some("gzip") => gz_dec(&r.body),
+								Some("br") => br_dec(&r.body),
+								_ => None,
+							};
+							r.status == 200 && dec.as_ref() == Some(want) && r.header("content-encoding").is_none_or(|e| e == acc)
+						});
+						if good {
+							ok += 1
+						} else {
+							bad += 1
+						}
+					}
+					(ok, bad)
+				})
+			})
+			.collect();
+		hs.into_iter().map(|h| h.join().unwrap()).collect()
+	});
+	let bad: usize = results.iter().map(|r| r.1).sum();
+	let total: usize = results.iter().map(|r| r.0 + r.1).sum();
+	out.oracle(bad == 0, "C05 concurrent requests: wrong or missing responses", json!({"kind":"concurrent"}), json!({"case": "C05 concurrent", "bad": bad, "total": total}));
+	out.count_n("concurrent_requests", total as u64);
+	for i in 0..total {
+		out.eval(&format!("concurrent {i}"), true);
+	}
+}
+
 fn unhex_str(s: &str) -> String {
 	String::from_utf8(unhex(s)).unwrap()
 }
@@ -871,7 +1283,9 @@ pub fn run(args: &Args) {
 	}
 	// server instances.  Correctly labelled sources: best / --fast serve all of them, the transforming instances a subset.
 	let good: Vec<SourceDef> = defs.iter().filter(|d| !d.mislabelled() && d.set == "std").cloned().collect();
-	let bigs: Vec<SourceDef> = defs.iter().filter(|d| matches!(d.set, "big" | "z31lo" | "z31hi")).cloned().collect();
+	let bigs: Vec<SourceDef> = defs.iter().filter(|d| matches!(d.set, "big" | "z31lo" | "z31hi" | "tiny")).cloned().collect();
+	// sources that lie about their compression, served WITHOUT the override: the stored bytes are undecodable for the server
+	let corrupt: Vec<SourceDef> = defs.iter().filter(|d| d.set == "std" && d.mislabelled() && d.actual == TileCompression::Uncompressed && d.comp == TileCompression::Gzip && d.fmt == "pbf").cloned().collect(); // declared gzip only: gzip has a checksum, whereas the brotli decoder accepts many arbitrary byte strings
 	let faulty: Vec<SourceDef> = defs.iter().filter(|d| d.set.starts_with("fault_")).cloned().collect();
 	let sub: Vec<SourceDef> = good.iter().filter(|d| (d.fmt == "pbf" || d.fmt == "png") && (d.container == "mbtiles" || d.comp == TileCompression::Gzip)).cloned().collect();
 	let mut servers = vec![
@@ -898,6 +1312,8 @@ pub fn run(args: &Args) {
 	let n_general = servers.len();
 	servers.push(start_server(&bin, &bigs, false, false, false, None, &dir));
 	servers.push(start_server(&bin, &bigs, true, false, false, None, &dir));
+	servers.push(start_server(&bin, &corrupt, false, false, false, None, &dir));
+	servers.push(start_server(&bin, &corrupt, true, false, false, None, &dir));
 	// one instance over sources that are damaged now that it has opened (indexed) them: the lookups fail inside the reader
 	servers.push(start_server(&bin, &faulty, false, false, false, None, &dir));
 	for d in &faulty {
@@ -914,14 +1330,21 @@ pub fn run(args: &Args) {
 	let cx = Ctx { servers: &servers, defs: &defs };
 
 	if let Some(p) = &args.replay {
+		let mut routes_replayed = false;
 		for line in std::fs::read_to_string(p).unwrap().lines() {
 			let t: Vec<&str> = line.trim().split(' ').collect();
 			match t.as_slice() {
-				["C05", "req", ..] | ["C05", "req2", ..] => {
+				["C05", "static", ..] | ["C05", "route", ..] => {
+					// served by the route instances: run that whole (small) section once
+					if !std::mem::replace(&mut routes_replayed, true) {
+						routes_section(&mut out, args, &bin, &dir, &defs);
+					}
+				}
+				["C05", "req", ..] | ["C05", "req2", ..] | ["C05", "req3", ..] => {
 					// old form: `req fast flip comp fmt tiles accept rest`
 					let (fast, flip, swap, comp, ovr, fmt, accept, rest) = if t[1] == "req" && t.len() == 9 {
 						(t[2], t[3], "0", t[4], "-", t[5], t[7], t[8])
-					} else if t[1] == "req2" && t.len() == 11 {
+					} else if (t[1] == "req2" && t.len() == 11) || (t[1] == "req3" && t.len() == 12) {
 						(t[2], t[3], t[4], t[5], t[6], t[7], t[9], t[10])
 					} else {
 						continue;
@@ -1048,6 +1471,8 @@ pub fn run(args: &Args) {
 						let class = match d.set {
 							"big" => "big_tile",
 							"z31lo" | "z31hi" => "zoom_30_31",
+							"tiny" => "tiny_tile",
+							"std" => "undecodable_stored",
 							_ => "reader_fault",
 						};
 						do_request(&mut out, &cx, srv, d, &rest, acc, Some((Expect::Coord(c.0 as u64, c.1 as u64, c.2 as u64), listed.clone())), class);
@@ -1076,6 +1501,9 @@ pub fn run(args: &Args) {
 			}
 		}
 	}
+	// G. every route × every header variant, static sources, option interplay; H. concurrency
+	routes_section(&mut out, args, &bin, &dir, &defs);
+	concurrent_section(&mut out, &servers[0]);
 	// the servers must have survived everything
 	let mut servers = servers;
 	for s in servers.iter_mut() {
